@@ -133,34 +133,29 @@ impl<I: Iterator<Item = char> + Clone, T, S: Default, E, W> Lexer<'static, I, T,
                                "saved match start taken from the end location"),
     "m30_has_no_transitions_ignores_eoi": (["C01", "C05"], [(DFA, "            && self.any_transition.is_none()\n            && self.end_of_input_transition.is_none()", "            && self.any_transition.is_none()")],
                                            "states with only an end-of-input transition are dropped"),
-    "m31_ctx_consumes_iter": (["C04"], [(CG, "quote!(#right_ctx_fn(self.0.__iter.clone())),\n                        quote!(self.0.set_accepting_state(#semantic_fn)),",
-                                         "quote!(#right_ctx_fn(std::mem::replace(&mut self.0.__iter, self.0.__iter.clone()))),\n                        quote!(self.0.set_accepting_state(#semantic_fn)),")],
-                              "(control) context still gets an equal iterator: must be caught only as a shape change"),
     "m32_generator_end_minus_one": (["C18"], [(GEN, "                Some((start, _)) => Some((start, i)),", "                Some((start, _)) => Some((start, i - 1 + 1)),")],
                                     "(control) arithmetic on the end point"),
     "m33_next_skips_newline_col_reset": (["C06"], [(UTIL, "                    self.current_match_end.line += 1;\n                    self.current_match_end.col = 0;", "                    self.current_match_end.line += 1;")],
                                          "column not reset at a newline"),
     "m34_peek_consumes": (["C10", "C09"], [(UTIL, "        self.__iter.peek().copied()", "        self.__iter.next()")], "peek() consumes a character"),
-    "m35_ctor_nonzero_state": (["C14"], [(UTIL, "            __state: 0,\n            __done: false,\n            __initial_state: 0,\n            user_state: state,\n            input: \"\",",
-                                          "            __state: 0,\n            __done: false,\n            __initial_state: 0,\n            user_state: state,\n            input: \" \",")],
-                               "(control) iterator constructor differs in `input` only: allowed difference, must stay silent"),
-    "m36_new_from_iter_skips_one": (["C14"], [(UTIL, "            __iter: iter.peekable(),", "            __iter: iter.skip(0).peekable(),")], "(shape) iterator wrapped differently"),
     "m37_unknown_builtin_defaults": (["C17"], [(R2N, '.unwrap_or_else(|| panic!("Unknown builtin regex: {}", builtin.0))', ".unwrap_or(BuiltinCharRange::Ascii)")],
                                      "unknown built-in silently becomes $$ascii"),
     "m38_diff_accepts_star": (["C17"], [(R2N, """        Regex::ZeroOrMore(_) => {
             panic!("`*` cannot be used in char sets (`#`)");
         }""", """        Regex::ZeroOrMore(re) => regex_to_range_map(bindings, re),""")], "`#` accepts a starred operand"),
-    "m39_or_right_assoc_like": (["C16"], [(AST, "        re = Regex::Or(Box::new(re), Box::new(re2)); // left associative", "        re = Regex::Or(Box::new(re2), Box::new(re)); // left associative")],
-                                "(semantics-preserving for language, but tree shape differs) alternation operands swapped"),
     "m40_star_builds_plus": (["C16", "C02"], [(AST, "            re = Regex::ZeroOrMore(Box::new(re));", "            re = Regex::OneOrMore(Box::new(re));")], "`*` parsed as `+`"),
 }
+MUTANTS["r06_revert_F6"] = (["C12"], [
+    (CG, "fn #binary_search_fn_ident(c: char, table: &[(char, char)]) -> bool {", "fn binary_search(c: char, table: &[(char, char)]) -> bool {"),
+    (CTX, '&format!("{}_BINARY_SEARCH", self.lexer_name),', '"binary_search",'),
+    ("crates/lexgen/src/dfa/codegen/search_table.rs", '&format!("{}_RANGE_TABLE_{}", lexer_name, n_tables),', '&format!("RANGE_TABLE_{}", n_tables),'),
+], "reverts fix commit 4636f65 (search table and helper names without the lexer prefix)")
 REVERTS = {
     "r01_revert_F1": ("1a68785", ["C01", "C12"]),
     "r02_revert_F2": ("551ccb8", ["C04", "C12"]),
     "r03_revert_F3": ("03d69f5", ["C07"]),
     "r04_revert_F4": ("1f39231", ["C08"]),
     "r05_revert_F5": ("d819a83", ["C11"]),
-    "r06_revert_F6": ("4636f65", ["C12"]),
     "r07_revert_F7": ("26f7588", ["C12"]),
     "r08_revert_F8": ("bd0162d", ["C18"]),
     "r09_revert_F9": ("02ee6c6", ["C04", "C13"]),
@@ -242,6 +237,11 @@ BENIGN = {
 """), (BT, "    let mut visited: Map<StateIdx, bool> = Default::default();\n", "    let mut visited: Map<StateIdx, bool> = Default::default();\n    let mut seen: crate::collections::Set<(StateIdx, bool)> = Default::default();\n")],
                                  "different but correct worklist (set of visited (state, flag) pairs)"),
     "b07_reorder_rule_sets_in_test": ([], "placeholder: rule-set declaration order is exercised by the rulesets witnesses"),
+    "b10_iter_ctor_other_input_const": ([(UTIL, "            __state: 0,\n            __done: false,\n            __initial_state: 0,\n            user_state: state,\n            input: \"\",",
+                                          "            __state: 0,\n            __done: false,\n            __initial_state: 0,\n            user_state: state,\n            input: \" \",")],
+                                        "iterator constructors may store any string constant in `input` (read only by match_, documented unavailable)"),
+    "b11_or_operands_swapped": ([(AST, "        re = Regex::Or(Box::new(re), Box::new(re2)); // left associative", "        re = Regex::Or(Box::new(re2), Box::new(re)); // left associative")],
+                                "alternation is commutative: same language"),
     "b08_eoi_action_block": ([(CG, "        self.0.__done = true; // don't handle end-of-input again\n        #end_of_input_action", "        self.0.__done = true;\n        { #end_of_input_action }")], "extra block around the end-of-input action"),
     "b09_generator_match_style": ([(GEN, """        } else if let Some(range) = current_range.take() {
             ranges.push(range);
